@@ -577,6 +577,15 @@ func (c *Ctx) varBelowLen(f *ssa.Function, i, x ssa.Value, blk *ssa.BasicBlock, 
 					return true
 				}
 			}
+			// any other integer-linear comparison that implies i+1 <= len(x):  i < len(x)-1,  i+2 <= len(x), ...
+			switch bo.Op {
+			case token.LSS, token.LEQ, token.GTR, token.GEQ:
+				for _, tv := range []bool{true, false} {
+					if linImpliesBelow(bo, tv, i, x, 1) && c.condAt(bo, tv, blk) {
+						return true
+					}
+				}
+			}
 		}
 	}
 	_ = slack
@@ -833,6 +842,21 @@ func (c *Ctx) dischargeBound(s boundSite) (string, bool) {
 		}
 	} else {
 		// slices
+		// x[:len(x)], x[:len(x):len(x)] (cutting the capacity off before an append)
+		if s.low == nil || isZeroConst(s.low) {
+			if l, ok := s.high.(*ssa.Call); ok && calleeName(l) == "builtin:len" && sameLen(l.Call.Args[0], s.x) {
+				sl, _ := s.in.(*ssa.Slice)
+				okMax := sl != nil && sl.Max == nil
+				if sl != nil && sl.Max != nil {
+					if m, ok := sl.Max.(*ssa.Call); ok && calleeName(m) == "builtin:len" && sameLen(m.Call.Args[0], s.x) {
+						okMax = true
+					}
+				}
+				if okMax {
+					return "x[:len(x)] of the same value", true
+				}
+			}
+		}
 		needLow := int64(0)
 		lowConst, highConst := false, false
 		if s.low == nil {
@@ -1507,6 +1531,10 @@ func (c *Ctx) varBelowLenEdge(f *ssa.Function, i, x ssa.Value, blk, succ *ssa.Ba
 		return taken
 	case bo.Op == token.GEQ && bo.X == i && isLen(bo.Y), bo.Op == token.LEQ && bo.Y == i && isLen(bo.X):
 		return !taken
+	}
+	switch bo.Op {
+	case token.LSS, token.LEQ, token.GTR, token.GEQ:
+		return linImpliesBelow(bo, taken, i, x, 1)
 	}
 	return false
 }
